@@ -53,12 +53,13 @@ def _is_authorized_type(tpe: Type[Any], gctx: EvalMainContext) -> bool:
 
     Note: the hierarchy is currently only concerned with modules, not with any sub-object.
     """
-    if tpe is None:
+    if tpe is None or tpe is type(None):
         return True
-    if tpe in (int, float, str, bytes, PurePosixPath, FunctionType, ModuleType):
+    if tpe in (int, float, bool, str, bytes, PurePosixPath, FunctionType, ModuleType):
         return True
     # Some specific structural types are more complex and can be user-controlled.
-    if get_option(accept_list_option) and tpe in (list,):
+    # (tuples are hashed like lists)
+    if get_option(accept_list_option) and tpe in (list, tuple):
         return True
     if get_option(accept_dict_option) and tpe in (dict, OrderedDict):
         return True
